@@ -112,6 +112,14 @@ def cases(tier, rng):
         for cuts in ("", "chunks=64", "chunks=%d" % len(base), "chunks=%d" % (len(base) + 3), "chunks=1,63,%d,2" % (len(base) - 64), "chunks=" + ",".join(["7"] * 30)):
             out.append("v%d sock %s / attach a %s raw=%s %s / recv / recv / recv" % (k, t, pt, W.tok(whole), cuts))
             k += 1
+    # PUB reads its subscribers in a task of its own: a subscription arriving in the same segment as the end of the handshake
+    # (or split anywhere) counts - the subscriber then gets what it asked for
+    base = W.GREETING + W.ready(b"SUB")
+    whole = base + b"".join(W.msg([b"\x01T%02d" % i_]) for i_ in range(70)) + W.msg([b"\x01A"]) + W.msg([b"\x01B"])
+    for cuts in ("", "chunks=64", "chunks=%d" % len(base), "chunks=%d" % (len(base) + 2), "chunks=1,63,%d,3" % (len(base) - 64),
+                 "chunks=" + ",".join(["7"] * 30), "chunks=%d" % (len(whole) - 1), "chunks=%d" % (len(base) + 256), "chunks=%d" % (len(base) + 257)):
+        out.append("v%d sock PUB / attach a SUB raw=%s %s / settle / send 4131 / send 4231 / send 4331 / wire a" % (k, W.tok(whole), cuts))
+        k += 1
     # REQ reads its connection only after a request has gone out: what arrived with / right after the end of the
     # handshake must still be there, for every segmentation
     base = W.GREETING + W.ready(b"REP")
@@ -175,6 +183,11 @@ def judge(line, impl_obs, orc, _cache={}):
         return "no observation"
     if impl_obs.startswith(("panic", "abort", "hang")) or "PANICS" in impl_obs:
         return "implementation " + impl_obs[:60]
+    if sp[1] == "sock" and sp[2] == "PUB":
+        want = "att:a=ok:auto s=ok s=ok s=ok wire:a=" + (W.msg([b"A1"]) + W.msg([b"B1"])).hex()
+        if impl_obs != want:
+            return "subscriptions arriving with the end of the handshake are not honoured by PUB for some segmentation: %s (expected %s)" % (impl_obs[:160], want)
+        return None
     if sp[1] == "sock" and sp[2] == "REQ":
         want = "att:a=ok:auto s=ok r=ok:6669727374"
         if impl_obs != want:
